@@ -71,9 +71,9 @@ check('C16', 'model_checking',
       'TLC enumeration with Grid.tla + exhaustive spec-to-code replay', 'DESIGN.md 4 C16')
 
 check('C20', 'fault_enumeration',
-      'spec/Cmdline.tla models main() as a staged pipeline (32 stages, same names as the Stage hook events); about 3170 fault sites (every '
+      'spec/Cmdline.tla models main() as a staged pipeline (32 stages, same names as the Stage hook events); about 4580 fault sites (every '
       'comma-separated field of every option of four base command lines replaced by empty / x / 0 / -1 / 1e300 / nan / inf / 1e-300 / 99 / 1e29 / -1e29 / 1e-29 / 1_0 / 1e / 0.5, arity '
-      'changes, options given twice or omitted, contradictory and degenerate combinations incl. two degenerate fields of one option and output files) carry stage and outcome kind '
+      'changes, options given twice or omitted, contradictory and degenerate combinations, every pair of fields of one option set to 0 / -1, output files) carry stage and outcome kind '
       '(spec/cmdline_table.json). TLC enumerates every single fault exhaustively and pairs of faults on different option groups by simulation, '
       'checks ExactlyOneOutcome / StopsAtFirst and dumps every scenario. Each scenario is run through the real main(); the verdict is taken '
       'from the OBSERVED outcome: complete finite report (parsed by the report grammar, no nan/inf token) | exactly one diagnostic line with '
